@@ -101,6 +101,18 @@ pub fn sign_json<K>(
 where
     K: KeyPair,
 {
+    // Validate the format of the existing signatures before modifying `object`, so that an error
+    // leaves it unchanged.
+    match object.get("signatures") {
+        Some(CanonicalJsonValue::Object(signatures)) => {
+            if signatures.get(entity_id).is_some_and(|signature_set| !signature_set.is_object()) {
+                return Err(JsonError::not_multiples_of_type("signatures", JsonType::Object));
+            }
+        }
+        Some(_) => return Err(JsonError::not_of_type("signatures", JsonType::Object)),
+        None => {}
+    }
+
     let (signatures_key, mut signature_map) = match object.remove_entry("signatures") {
         Some((key, CanonicalJsonValue::Object(signatures))) => (Cow::Owned(key), signatures),
         Some(_) => return Err(JsonError::not_of_type("signatures", JsonType::Object)),
